@@ -3,7 +3,6 @@ package gateway
 import (
 	"errors"
 	"fmt"
-	"sync"
 
 	"github.com/vektah/gqlparser/v2"
 	"github.com/vektah/gqlparser/v2/ast"
@@ -141,17 +140,6 @@ func (p *MinQueriesPlanner) generatePlans(ctx *PlanningContext, query *ast.Query
 		// add the plan to the top level list
 		plans = append(plans, plan)
 
-		// a channel to register new steps
-		const maxConcurrentSteps = 50
-		stepCh := make(chan *newQueryPlanStepPayload, maxConcurrentSteps)
-
-		// a chan to get errors
-		errCh := make(chan error)
-		defer close(errCh)
-
-		// a wait group to track the progress of goroutines
-		stepWg := &sync.WaitGroup{}
-
 		// get the type for the operation
 		var operationType string
 		switch operation.Operation {
@@ -165,11 +153,10 @@ func (p *MinQueriesPlanner) generatePlans(ctx *PlanningContext, query *ast.Query
 			operationType = typeNameQuery
 		}
 
-		// we are garunteed at least one query
-		stepWg.Add(1)
-
-		// start with an empty root step
-		stepCh <- &newQueryPlanStepPayload{
+		// the steps that still have to be built, starting with an empty root step. Building a step
+		// can discover any number of dependent steps, so the queue must be able to grow while the
+		// only consumer (this loop) is busy.
+		newSteps := []*newQueryPlanStepPayload{{
 			Plan:           plan,
 			SelectionSet:   operation.SelectionSet,
 			ParentType:     operationType,
@@ -177,14 +164,17 @@ func (p *MinQueriesPlanner) generatePlans(ctx *PlanningContext, query *ast.Query
 			InsertionPoint: []string{},
 			Fragments:      ast.FragmentDefinitionList{},
 			Wrapper:        ast.SelectionSet{},
+		}}
+		addStep := func(payload *newQueryPlanStepPayload) {
+			newSteps = append(newSteps, payload)
 		}
 
-		// start waiting for steps to be added
-		// NOTE: i dont think this closure is necessary ¯\_(ツ)_/¯
-		go func(newSteps chan *newQueryPlanStepPayload) {
-		SelectLoop:
-			// continuously drain the step channel
-			for payload := range newSteps {
+		{
+			// build steps until there are none left
+			for len(newSteps) > 0 {
+				payload := newSteps[0]
+				newSteps = newSteps[1:]
+
 				step := &QueryPlanStep{
 					Queryer:             p.GetQueryer(ctx, payload.Location),
 					ParentType:          payload.ParentType,
@@ -219,8 +209,7 @@ func (p *MinQueriesPlanner) generatePlans(ctx *PlanningContext, query *ast.Query
 				// we are going to start walking down the operations selection set and let
 				// the steps of the walk add any necessary selectedFields
 				newSelection, err := p.extractSelection(ctx, &extractSelectionConfig{
-					stepCh:         stepCh,
-					stepWg:         stepWg,
+					addStep:        addStep,
 					locations:      ctx.Locations,
 					parentLocation: payload.Location,
 					parentType:     step.ParentType,
@@ -231,8 +220,7 @@ func (p *MinQueriesPlanner) generatePlans(ctx *PlanningContext, query *ast.Query
 					wrapper:        payload.Wrapper,
 				})
 				if err != nil {
-					errCh <- err
-					continue SelectLoop
+					return nil, err
 				}
 
 				// if some of the fields are from the same location as the field on the operation
@@ -259,44 +247,12 @@ func (p *MinQueriesPlanner) generatePlans(ctx *PlanningContext, query *ast.Query
 				// we also need to turn the query into a string
 				queryString, err := graphql.PrintQuery(step.QueryDocument)
 				if err != nil {
-					errCh <- err
-					continue SelectLoop
+					return nil, err
 				}
 
 				step.QueryString = queryString
-
-				// we're done processing this step
-				stepWg.Done()
 			}
-		}(stepCh)
-
-		// there are 2 possible options:
-		// - either the wait group finishes
-		// - we get a messsage over the error chan
-
-		// in order to wait for either, let's spawn a go routine
-		// that waits until all of the steps are built and notifies us when its done
-		doneCh := make(chan bool)
-		defer close(doneCh)
-
-		go func() {
-			// when the wait group is finished
-			stepWg.Wait()
-			// push a value over the channel
-			doneCh <- true
-		}()
-
-		// wait for either the error channel or done channel
-		select {
-		// there was an error
-		case err := <-errCh:
-			// bubble the error up
-			return nil, err
-		// we are done
-		case <-doneCh:
-			close(stepCh)
 		}
-
 	}
 
 	// return the final plan
@@ -304,8 +260,8 @@ func (p *MinQueriesPlanner) generatePlans(ctx *PlanningContext, query *ast.Query
 }
 
 type extractSelectionConfig struct {
-	stepCh chan *newQueryPlanStepPayload
-	stepWg *sync.WaitGroup
+	// addStep registers a dependent step that still has to be built
+	addStep func(*newQueryPlanStepPayload)
 
 	locations      FieldURLMap
 	parentLocation string
@@ -363,10 +319,8 @@ func (p *MinQueriesPlanner) extractSelection(ctx *PlanningContext, config *extra
 			}
 		}
 
-		// since we're adding another step we need to wait for at least one more goroutine to finish processing
-		config.stepWg.Add(1)
 		// add the new step
-		config.stepCh <- &newQueryPlanStepPayload{
+		config.addStep(&newQueryPlanStepPayload{
 			Plan:           config.plan,
 			Parent:         config.step,
 			InsertionPoint: config.insertionPoint,
@@ -376,7 +330,7 @@ func (p *MinQueriesPlanner) extractSelection(ctx *PlanningContext, config *extra
 			Location:     location,
 			SelectionSet: selectionSet,
 			Fragments:    locationFragments[location],
-		}
+		})
 	}
 
 	// if we have to have an id field on this selection set
@@ -421,8 +375,7 @@ func (p *MinQueriesPlanner) extractSelection(ctx *PlanningContext, config *extra
 				ctx.Gateway.logger.Debug("found a thing with a selection. extracting to ", insertionPoint, ". Parent insertion", config.insertionPoint)
 				// add any possible selections provided by this fields selections
 				subSelection, err := p.extractSelection(ctx, &extractSelectionConfig{
-					stepCh:         config.stepCh,
-					stepWg:         config.stepWg,
+					addStep:        config.addStep,
 					step:           config.step,
 					locations:      config.locations,
 					parentLocation: config.parentLocation,
@@ -476,8 +429,7 @@ func (p *MinQueriesPlanner) extractSelection(ctx *PlanningContext, config *extra
 
 			// compute the actual selection set for the fragment coming from this location
 			subSelection, err := p.extractSelection(ctx, &extractSelectionConfig{
-				stepCh:         config.stepCh,
-				stepWg:         config.stepWg,
+				addStep:        config.addStep,
 				step:           config.step,
 				locations:      config.locations,
 				parentLocation: config.parentLocation,
@@ -517,8 +469,7 @@ func (p *MinQueriesPlanner) extractSelection(ctx *PlanningContext, config *extra
 
 			// add any possible selections provided by selections
 			subSelection, err := p.extractSelection(ctx, &extractSelectionConfig{
-				stepCh:         config.stepCh,
-				stepWg:         config.stepWg,
+				addStep:        config.addStep,
 				step:           config.step,
 				locations:      config.locations,
 				parentLocation: config.parentLocation,
